@@ -118,7 +118,12 @@ class NumericData(Data, ABC):
             warn("Input 'values' converted to a 1D array.")
 
         # change nan values to nan_value
-        values[np.isnan(values)] = self.nan_value
+        if np.issubdtype(values.dtype, np.floating):
+            if values.dtype.itemsize < 4:
+                # half precision cannot hold the integer no-data value
+                values = values.astype(np.float32)
+
+            values[np.isnan(values)] = self.nan_value
 
         # check the length of the values
         values = self.format_length(values)
